@@ -91,11 +91,13 @@ func c01(r *core.Run) {
 	r.Explanation = "Static rules over storage.MsgPostProof and the reward path: every state write of the proof handler lies, on every nil-error return (the handler reports rejection as Success=false with a nil error, so those commit), behind the nil result of the call whose callee returns nil only after the Merkle library verification succeeded; the verifier is fed the stored challenge index and the file's stored root, never the submitted index; writes also lie behind the submitted-index == stored-challenge comparison; only PostProof and the attestation quorum path can write proof records; reward crediting is keyed by the prover of a proof record loaded for a key of the file's prover list."
 	r.Assumptions = []string{T1, T4, "soundness of the go-merkletree verification and of SHA-256/SHA3"}
 	r.NotDecided = []string{"cryptographic soundness of the Merkle library", "unpredictability of the stored challenge"}
+	r.Rule("C01/R6", "block-height arithmetic is dimensionally consistent: absolute heights (Ctx.BlockHeight and fields assigned from it) are compared only with absolute heights, intervals/offsets/parameters only with each other (point - point = span, point ± span = point), followed through helper calls with the dimensions of the actual arguments")
 	r.Rule("C01/R1", "verification gates every write of storage.MsgPostProof: on all returns with nil error, each effect is behind ErrNil(prove call)=true")
 	r.Rule("C01/R2", "the prove callee returns nil only under merkle-library verification = true; the chunk index handed to the verifier ⊵ Store(FileProof).ChunkToProve and ⋫ msg.ToProve; the root ⊵ the stored file's Merkle")
 	r.Rule("C01/R3", "challenge match: every write of the handler is behind Eq(msg.ToProve, Store(FileProof).ChunkToProve)=true")
 	r.Rule("C01/R4", "who-may-write: the only transaction/block entry points that can Set a FileProof record are storage.MsgPostProof and storage.MsgAttest")
 	r.Rule("C01/R5", "crediting: the reward size tracker is keyed only by the Prover of a FileProof record loaded for a key taken from the file's Proofs list")
+	heightDimensions(r, "C01/R6", moduleFuncs(p, "storage"), 8)
 	hs, err := p.Handlers()
 	if err != nil {
 		r.Undecided("C01/R1", "handlers", "", err.Error())
